@@ -23,7 +23,7 @@ PROP = {
                   "proved here. The eventual observability of a close is 'the event is queued and every queue drains' (C03/C07), not a temporal theorem.",
     "trivial_sig": r"malformed",
     "rule": "net stream 2: 1-8 messages of 0-19 bytes over random Cfg pairs (receive buffers 4..1024 incl. non-multiples of 4, event queues 1..3), "
-            "close/drop position anywhere incl. before the first and after the last message, five kinds (receiver closes / is dropped / senders dropped / sender overriding graceful close with the receiver closed then dropped / sender overriding graceful close that sends 10-60 further messages of 1-40 bytes to a closed receiver that keeps receiving: all must arrive, then end-of-stream); port and endpoint streams as in C01/C08; typed-channel stream (base) as in C04, incl. receives that are dropped and repeated while the deserializer thread of a streamed value is held; "
+            "close/drop position anywhere incl. before the first and after the last message, five kinds (receiver closes / is dropped / senders dropped / sender overriding graceful close with the receiver closed then dropped / sender overriding graceful close that sends 10-60 further messages of 1-40 bytes to a closed receiver that keeps receiving: all must arrive, then end-of-stream; a close() cancelled while it waits for a slot of the full one-slot event queue and then repeated: the sender must still learn of it; a forwarding hop A -> B (chmux::Receiver::forward) -> C with small buffers at C, C closing while 4-24 messages are under way: what completed at A arrives at C, then end-of-stream); port and endpoint streams as in C01/C08; typed-channel stream (base) as in C04, incl. receives that are dropped and repeated while the deserializer thread of a streamed value is held; "
             "distinct = distinct input",
     "assumptions": ["paused-clock quiescence barrier"],
 }
